@@ -81,3 +81,10 @@ add("C06", "E3 sched", "model_checking",
     "Real threading.Thread workloads (context blocks, bare checks, decorated and nested decorated calls, PyTree checks with '?' axes, failing checks that trigger rollback, wrong-dtype probes that a leaked flatten flag would accept; 2-3 threads) are serialised by a semaphore baton; a context switch is possible before every source line of jaxtyping; every schedule with <= 1 preemption (quick) / <= 2 preemptions for the 2-thread workloads (thorough) is executed to completion and every thread's transcript of verdicts, exception classes and print_bindings() texts must equal the transcript of the same body run alone.",
     "One OS thread runs at a time (asserted at every scheduling point); races inside one source line are not explored (single attribute/dict stores are atomic under the GIL); bound-2 runs of PyTree workloads use scheduling points at every line of _storage.py and at every call event elsewhere.",
     "DESIGN.md §6 C06, §3 E3")
+
+ENGINES[2]["serves_properties"] += ["C19"]
+add("C19", "E2 callspace", "exploration",
+    "exhaustive operation-history, configuration and environment enumeration on the real code, differential against the undecorated source",
+    "Every toggle/decorate/call history of length <=4 (quick) / <=5 (thorough) over 7 operations x 7 callable kinds (def, method, classmethod, staticmethod, property, dataclass __init__, function in a hooked module) x 2 typecheckers x no_type_check placements, every switch value x item-name casing x prior state, and one subprocess per environment value are executed; while off, the decorated behaviour (result / exception identity, body run count, argument identities, no context pushed) is identical to the same source compiled without the jaxtyped line; after re-enabling, ill-typed calls raise again without re-decoration; accepted spellings are exactly {0,1,true,false in any case, bool}.",
+    "Reference = the same source without the decorator; interpreter-made TypeErrors compared by type and message; don't-care: non-bool 0/1/1.0 values, non-lower-case item names, no_type_check applied to a classmethod/staticmethod object, old-style double decorator and typechecker=None under disable.",
+    "DESIGN.md §6 C19")
